@@ -61,6 +61,16 @@ CLAIMED.update({
              "`ty` field of IprUnify, scope/parameter-list products by IprScopes.",
         ref="DESIGN.md §3 C09", tech="TLA+ IprMake type rules: complete factory sweep replayed + trace validation",
         note=MAKE_NOTE),
+    "C06": dict(
+        text="IprVisitor.tla holds the Super table (category -> nearest abstract super-category, Classic in between for classic "
+             "expressions), Chain and Dispatch; TLC checks the table (finite chains, exactly one sink, Classic only for classic "
+             "expressions) and prints the chain per category. The harness builds an instance of every implementation class "
+             "obtainable for all 159 categories (347 instances, 187 category/class pairs) and records category, the hooks "
+             "accept() reaches, the number of hooks entered, the sink of a sinks-only visitor, and view<K> for all K; every "
+             "instance is compared with the printed chain and validated again by the trace spec.",
+        ref="DESIGN.md §3 C06", tech="TLA+ IprVisitor: per-category dispatch chains from TLC compared on one instance of every implementation class + trace validation",
+        note="Trusted: TLC, the Super table transcribed from the class heads at the pinned commit (design/super-table.txt), "
+             "harness/visit.cxx. The cxx_form / attribute / unit visitors are outside C06's wording and not covered."),
     "C03": dict(
         text="IprStrings.tla (R-level): per-Lexicon map word -> String, immutable content, empty and reserved words shared "
              "process-wide. TLC enumerates every sequence of 4 (quick) / 5 (thorough) intern requests over two Lexicons and 8 "
